@@ -41,6 +41,10 @@ let dec_of_pos (p : positive) : string =
 let dec_of_n = function N0 -> "0" | Npos p -> dec_of_pos p
 let dec_of_z = function Z0 -> "0" | Zpos p -> dec_of_pos p | Zneg p -> "-" ^ dec_of_pos p
 
+(* the 256 byte values, allocated once and shared (a fresh N per byte costs ~25 words) *)
+let byte_tab : n array = Array.init 256 n_of_int
+let byte_n (i : int) : n = byte_tab.(i land 255)
+
 let hex_of_bytes (l : n list) : string =
   let b = Buffer.create 64 in
   List.iter (fun x -> Buffer.add_string b (Printf.sprintf "%02x" (int_of_n x land 255))) l;
@@ -48,7 +52,7 @@ let hex_of_bytes (l : n list) : string =
 let bytes_of_hex (s : string) : n list =
   if s = "-" then [] else
   let len = String.length s / 2 in
-  List.init len (fun i -> n_of_int (int_of_string ("0x" ^ String.sub s (2*i) 2)))
+  List.init len (fun i -> byte_n (int_of_string ("0x" ^ String.sub s (2*i) 2)))
 
 let split_ws (line : string) : string list =
   List.filter (fun s -> s <> "") (String.split_on_char ' ' line)
